@@ -31,6 +31,8 @@ KEYS = {
         "a @defer below a list field that was selected under a type condition on an abstract type is never announced nor delivered (deferInfoCollector.outermostListFieldIndex gives up, the descriptor path runs through the list and the anchor reads as dead)",
     "defer-nested-list-dropped":
         "a @defer inside the items of a list of lists is announced and completed with an empty incremental list: fieldNodeKindAllowsSeek does not enter nested lists",
+    "defer-failed-parent-announces-children":
+        "a deferred group that fails (completed with errors, no incremental data) still announces its nested defers; their items are then delivered at subPaths inside objects the client never received",
     "defer-label-unique-false-positive":
         "DeferStreamHaveUniqueLabels reports a label as duplicated against itself when a sibling field carries @skip/@include with a variable",
     "defer-planner-empty-selection":
@@ -56,13 +58,15 @@ def classify(case, detail):
         d0, silent, failed, monoerr, diag = m.group(1), int(m.group(2)), int(m.group(3)), int(m.group(4)), m.group(5)
         if d0 == "null":
             return "defer-null-data-pending"
+        if "addresses nothing in the data delivered so far" in d and failed > 0:
+            return "defer-failed-parent-announces-children"
         if diag == "nested-list":
             return "defer-nested-list-dropped"
         if diag == "typed-list":
             return "defer-under-typed-list-dropped"
         if monoerr > 0 and silent > 0:
             return "defer-silent-completion-drops-errors"
-        if monoerr == 0 and ("missing in the reconstruction" in d):
+        if silent == 0 and failed == 0 and ("missing in the reconstruction" in d):
             return "defer-merged-field-lost"
         return None
     return None
